@@ -285,22 +285,62 @@ Qed.
 
 Definition no62 (lit : bytes) : bool := forallb (fun x => negb (x =? 62)) lit.
 
+(* a literal without '>' that stands at p ends before any '>' found from p on *)
+Lemma prefix_no62 : forall lit l k r, prefix_b lit l = true -> no62 lit = true -> (k < length lit)%nat ->
+  skipn k l <> 62 :: r.
+Proof.
+  induction lit as [|a lit IH]; intros l k r Hp Hn Hk; [cbn [length] in Hk; lia|].
+  destruct l as [|y l]; [discriminate|]. cbn [prefix_b] in Hp. apply andb_true_iff in Hp. destruct Hp as [Hay Hp].
+  unfold no62 in *. cbn [forallb] in Hn. apply andb_true_iff in Hn. destruct Hn as [Ha Hn].
+  destruct k as [|k]; cbn [skipn].
+  - intros E. injection E as E _. lia.
+  - apply IH; [exact Hp|exact Hn|cbn [length] in Hk; lia].
+Qed.
+
+(* the loop ends right after a '>' *)
+Lemma consume_decl_loop_loc : forall fu1 fu2 p s', (fu1 <= fu2)%nat -> p <= tlen T1 ->
+  consume_decl_loop T1 fu1 (cs T1 p) = Ok s' ->
+  exists p', s' = cs T1 p' /\ p < p' /\ p' <= tlen T1 /\ curr_byte (cs T1 (p' - 1)) = Ok 62 /\
+    (p' <= P -> consume_decl_loop T2 fu2 (cs T2 p) = Ok (cs T2 p')).
+Proof.
+  induction fu1 as [|fu1 IH]; intros fu2 p s' Hfu Hp H; [discriminate|].
+  destruct fu2 as [|fu2]; [lia|]. cbn [consume_decl_loop] in *. cbv zeta in *.
+  set (f := fun x : N => negb (x =? 62) && negb (x =? 34) && negb (x =? 39)) in *.
+  destruct (skip_bytes1' f p Hp) as (p1 & E1 & A1 & A2 & E2). rewrite E1 in H.
+  ib H c Hc. ib H sa Ha. apply advance1_ok' in Ha. subst sa.
+  assert (A3 : p1 + 1 <= tlen T1).
+  { unfold curr_byte in Hc. rewrite cs_at_end in Hc. destruct (tlen T1 <=? p1) eqn:Ea; [discriminate|]. lia. }
+  destruct (c =? 62) eqn:Ec.
+  - injection H as <-. assert (c = 62) by lia. subst c.
+    exists (p1 + 1). split; [reflexivity|]. split; [lia|]. split; [exact A3|]. split.
+    { replace (p1 + 1 - 1) with p1 by lia. exact Hc. }
+    intros Hle. rewrite E2 by lia. rewrite curr_byte_same' by lia. rewrite Hc. cbn [bind].
+    rewrite advance2_ok' by lia. cbn [bind]. reflexivity.
+  - destruct (skip_bytes1' (fun y => negb (y =? c)) (p1 + 1) A3) as (p2 & F1 & B1 & B2 & F2). rewrite F1 in H.
+    ib H sb Hb. destruct (consume_byte_loc' c p2 sb Hb) as (-> & C1 & C2).
+    destruct (IH fu2 (p2 + 1) s' ltac:(lia) C1 H) as (p' & -> & D1 & D2 & D3 & D4).
+    exists p'. split; [reflexivity|]. split; [lia|]. split; [exact D2|]. split; [exact D3|].
+    intros Hle. rewrite E2 by lia. rewrite curr_byte_same' by lia. rewrite Hc. cbn [bind].
+    rewrite advance2_ok' by lia. cbn [bind]. rewrite Ec. rewrite F2 by lia. rewrite C2 by lia. cbn [bind].
+    apply D4. exact Hle.
+Qed.
+
 Lemma consume_decl_loc p s' : p <= tlen T1 -> consume_decl T1 (cs T1 p) = Ok s' ->
   exists p', s' = cs T1 p' /\ p < p' /\ p' <= tlen T1 /\
     (forall lit, starts_with (cs T1 p) lit = true -> no62 lit = true -> p + blen lit + 1 <= p') /\
     (p' <= P -> consume_decl T2 (cs T2 p) = Ok (cs T2 p')).
 Proof.
-  intros Hp H. unfold consume_decl in *. cbv zeta in *.
-  destruct (skip_bytes1' (fun x => negb (x =? 62)) p Hp) as (p1 & E1 & A1 & A2 & E2).
-  pose proof (cs_skip_bytes T1 (fun x => negb (x =? 62)) p Hp) as Escan. rewrite E1 in Escan.
-  apply (f_equal s_pos) in Escan. cbn [cs s_pos] in Escan.
-  rewrite E1 in H. destruct (consume_byte_loc' 62 p1 s' H) as (-> & B1 & B2).
-  exists (p1 + 1). split; [reflexivity|]. split; [lia|]. split; [exact B1|]. split.
-  - intros lit Hs Hn. unfold starts_with in Hs. rewrite cs_avail in Hs.
-    pose proof (prefix_b_len _ _ Hs) as Hlen. rewrite skipn_length in Hlen.
-    pose proof (scan_prefix_min _ lit _ (N.to_nat (tlen T1 - p)) Hs Hn) as Hmin.
-    unfold tlen, blen in *. lia.
-  - intros Hle. rewrite E2 by lia. apply B2. exact Hle.
+  intros Hp H. unfold consume_decl in *.
+  destruct (consume_decl_loop_loc _ _ p s' (fuel_le' p Hp) Hp H) as (p' & -> & A1 & A2 & A3 & A4).
+  exists p'. split; [reflexivity|]. split; [exact A1|]. split; [exact A2|]. split; [|exact A4].
+  intros lit Hs Hn. unfold starts_with in Hs. rewrite cs_avail in Hs.
+  destruct (N.le_gt_cases (p + blen lit + 1) p') as [Hle|Hgt]; [exact Hle|]. exfalso.
+  unfold curr_byte in A3. rewrite cs_at_end in A3. destruct (tlen T1 <=? p' - 1); [discriminate|].
+  unfold curr_byte_unchecked in A3. cbn [cs s_rest] in A3.
+  destruct (skipn (N.to_nat (p' - 1)) T1) as [|x r] eqn:Er; [discriminate|]. injection A3 as ->.
+  replace (N.to_nat (p' - 1)) with (N.to_nat p + (N.to_nat (p' - 1) - N.to_nat p))%nat in Er by lia.
+  rewrite <- skipn_skipn_add in Er.
+  apply (prefix_no62 lit _ _ r Hs Hn) in Er; [exact Er|]. unfold blen in Hgt. lia.
 Qed.
 
 Lemma parse_doctype_start_loc p s' : p <= tlen T1 -> parse_doctype_start T1 (cs T1 p) = Ok s' ->
